@@ -1,6 +1,7 @@
 """Template processing: a unit template (`units/<name>.vrs`) is Verus text with `//@` directives that pull
 items out of the expanded crate.  Produces one self-contained Verus file plus a line map."""
 import hashlib
+import json
 import os
 import re
 import sys
@@ -109,6 +110,14 @@ def sig_of(body):
                 continue
             out.append(re.sub(r'//#.*$', '', ln).rstrip())
     return out
+
+
+# names of the locals each extracted function bound when its sidecar was written (bin/record-locals; rule R10)
+RECORDED_LOCALS = {}
+try:
+    LOCALS = json.load(open(os.path.join(VERIF, 'units', 'locals.json')))
+except (OSError, ValueError):
+    LOCALS = {}
 
 
 def process_template(path, crate, repo, gen=None, depth=0):
@@ -224,7 +233,12 @@ def process_template(path, crate, repo, gen=None, depth=0):
             fn = crate.find_fn(sc.module, sc.name, sc.impl_re)
             log = X.RuleLog()
             lost = []
-            woven = X.weave(fn, sc, log, lost, gen.unit_rewrites)
+            lkey = f'{sc.module}::{sc.name}'
+            if os.environ.get('VERIF_RECORD_LOCALS') == '1':
+                RECORDED_LOCALS[lkey] = X.binders(X.strip_attrs(list(fn['body'])))
+                woven = X.weave(fn, sc, log, lost, gen.unit_rewrites)
+            else:
+                woven = X.weave(fn, sc, log, lost, gen.unit_rewrites, expected_locals=LOCALS.get(lkey))
             gen.lost.extend(lost)
             for k, v in log.counts.items():
                 gen.rule_counts[k] = gen.rule_counts.get(k, 0) + v
